@@ -224,6 +224,8 @@ let () =
           | _ ->
             bump ("op_" ^ opname);
             let order = match field rf "order" with Some s -> List.map name_of_string (parse_names s) | None -> [] in
+            if opname = "ELR" && List.length (dedupe order) <> List.length order then
+              mismatch !opno "fidelity" "ELR: OrderNonTerminals returned a non-terminal twice (the theorem assumes a duplicate-free order)";
             let mres = match opname with
               | "DEL" -> c_del g | "UNIT" -> c_unit g | "UNREACH" -> c_unreachable g | "CYCLES" -> c_cycles g
               | "ELR" -> c_elr order g | "LF" -> c_left_factor g | "CNF" -> c_chomsky g
